@@ -451,5 +451,40 @@ def gen_foreign_case(rng, P):
     g.procs[1] = prog
     return 'core', g.lines()
 
+def gen_subs_case(rng, P):
+    """subscription registry with messages in flight: one-shot subscriptions, replacement (same topic, other flags) and update (same flags)
+    between a publication and its delivery, unsubscribe of present/absent topics, regular-expression topics, counts after every step"""
+    g = _base(rng, P, 3)
+    prog = ['ctxreg 1', 'reg 0', 'reg 1', 'reg 2', 'start 0', 'start 1', 'start 2']
+    T = [1, 2, 4]
+    def sub(m, t=None, one=None):
+        return 'sub %d %d %d %d %d' % (m, t if t is not None else rng.choice(T + PATTERNS[:2]), rng.choice([0, 0, 1, 2, 3]),
+                                       one if one is not None else (1 if rng.random() < 0.4 else 0), rng.randint(1, 99))
+    specs = []
+    for _ in range(rng.randint(2, 6)):
+        body = []
+        if rng.random() < 0.35: body = [rng.choice([sub(1), 'unsub 1 %d' % rng.choice(T), 'srclen 1 0', 'publish 1 %d %d 0' % (rng.choice(T), g.newdata())])]
+        specs.append('%d:1' % (g.newproc(body) if body else 0))
+    g.cbs = ['cb 1 evt 0 ' + ' '.join(specs)]
+    for _ in range(rng.randint(3, 9)):
+        x = rng.random(); m = rng.choice([1, 1, 2]); t = rng.choice(T)
+        if x < 0.4:
+            # directed: one-shot subscription, a message in flight, the subscription is replaced / updated / removed before delivery
+            prog += [sub(m, t, 1), 'publish 0 %d %d %d' % (t, g.newdata(), rng.randint(0, 1))]
+            prog += [rng.choice([sub(m, t, 0), sub(m, t, 0), sub(m, t, 1), 'unsub %d %d' % (m, t), 'pause %d' % m, 'srclen %d 0' % m])]
+            prog += ['dispatch', 'srclen %d 0' % m, 'publish 0 %d %d 0' % (t, g.newdata()), 'dispatch', 'srclen %d 0' % m,
+                     rng.choice(['unsub %d %d' % (m, t), 'resume %d' % m, 'srclen %d 8' % m])]
+        elif x < 0.6: prog.append(sub(m))
+        elif x < 0.7: prog.append('unsub %d %d' % (m, rng.choice(T + PATTERNS[:2])))
+        elif x < 0.85: prog += ['publish 0 %d %d %d' % (t, g.newdata(), rng.randint(0, 1)), 'dispatch']
+        else: prog += ['srclen %d 0' % m, 'dispatch']
+    prog += ['srclen 1 0', 'srclen 2 0', 'publish 0 1 %d 0' % g.newdata(), 'publish 0 2 %d 0' % g.newdata(), 'publish 0 4 %d 0' % g.newdata(), 'dispatch',
+             'quit 3', 'dispatch', 'dispatch', 'live', 'dereg 0', 'dereg 1', 'dereg 2', 'ctxdereg', 'live']
+    g.procs[1] = prog
+    return 'core', g.lines()
+
+def gen_sources_or_subs_case(rng, P):
+    return (gen_subs_case if rng.random() < 0.35 else gen_sources_case)(rng, P)
+
 def gen_mixed_case(rng, P):
     return rng.choice([gen_sources_case, gen_stash_case, gen_lifetime_case, gen_lifetime_case, gen_batch_case, gen_become_case, gen_burst_case])(rng, P)
